@@ -23,6 +23,8 @@ inductive Test
   | node
   /-- `text()` -/
   | text
+  /-- `comment()`: the data tree has no comment nodes -/
+  | comment
 deriving Repr, Inhabited
 
 inductive BinOp
